@@ -11,6 +11,11 @@ class _Rewrite(ast.NodeTransformer):
         self.generic_visit(node)
         if isinstance(node.func, ast.Name):
             f, a = node.func.id, node.args
+            if f in ("forall", "exists") and len(a) == 2:          # over all integers: natively over a window that contains every key used by the bounded domains
+                gen = ast.GeneratorExp(elt=a[1], generators=[ast.comprehension(
+                    target=ast.Name(id=a[0].id, ctx=ast.Store()),
+                    iter=ast.Call(func=ast.Name(id="range", ctx=ast.Load()), args=[ast.Constant(-64), ast.Constant(65)], keywords=[]), ifs=[], is_async=0)])
+                return ast.Call(func=ast.Name(id="all" if f == "forall" else "any", ctx=ast.Load()), args=[gen], keywords=[])
             if f in ("forall", "exists") and len(a) == 4:
                 gen = ast.GeneratorExp(elt=a[3], generators=[ast.comprehension(
                     target=ast.Name(id=a[0].id, ctx=ast.Store()),
@@ -95,8 +100,8 @@ def check_native(contract: dict, limit: int | None = None):
             env.update(g)
             old.update(copy.deepcopy(g))
         try:
-            if not all(evaluate(r, env, old, extra) for r in contract.get("requires", [])):
-                continue
+            if not nat.get("skip_requires") and not all(evaluate(r, env, old, extra) for r in contract.get("requires", [])):
+                continue          # skip_requires: the native domain is constructed inside the precondition (its clauses use macros / attribute functions)
         except Exception:
             continue
         n += 1
@@ -117,9 +122,13 @@ def check_native(contract: dict, limit: int | None = None):
                     pass
             return n, ok, dict(input=_plain(kw), raised=repr(raised), clause=f"raises {nm} not permitted here")
         env["result"] = res
+        if "check" in nat:          # contracts whose clauses are attached to individual return statements: an explicit native reading of the same clauses
+            why = nat["check"](res, **copy.deepcopy(kw))
+            if why:
+                return n, ok, dict(input=_plain(kw), output=_plain(res), clause=str(why))
         if "ghost_post" in nat:
             env.update(nat["ghost_post"](res, **copy.deepcopy(kw)))
-        for e in contract.get("ensures", []):
+        for e in ([] if nat.get("skip_ensures") else contract.get("ensures", [])):
             try:
                 good = evaluate(e, env, old, extra)
             except NameError:
